@@ -1220,13 +1220,33 @@ def logical_buffer_view(chk, db, rule):
                             ok = ir.const_of(ir.strip_all_casts(i)) == 0 or ir.const_of(i) == 0
                         else:
                             ok = field_of(i) is not None and field_of(i) != field_of(base)
+            if f['n'] == 'end' and not ok and e.get('k') == 'bin' and e.get('op') == '+':
+                # the same element address spelled without subscripting at size(): <first element> + size
+                def first_element(x):
+                    x = ir.strip_all_casts(x)
+                    if x.get('k') == 'call' and ir.callee_name(x) == 'begin' and ir.strip(x.get('obj', {})).get('k') == 'this':
+                        return True
+                    if x.get('k') == 'call' and ir.callee_name(x) == 'data' and field_of(x.get('obj', {})) is not None:
+                        return True
+                    if x.get('k') == 'un' and x.get('op') == '&':
+                        ii = ir.strip_all_casts(x['e'])
+                        if ii.get('k') == 'idx' or (ii.get('k') == 'call' and ii.get('ck') == 'op'):
+                            b2 = ii['b'] if ii['k'] == 'idx' else ii['args'][0]
+                            i2 = ii['i'] if ii['k'] == 'idx' else ii['args'][1]
+                            return field_of(b2) is not None and ir.const_of(ir.strip_all_casts(i2)) == 0
+                    return False
+
+                def size_field(x):
+                    n = field_of(x)
+                    return n is not None and '[' not in fields.get(n, '') and 'array<' not in fields.get(n, '')
+                ok = (first_element(e['l']) and size_field(e['r'])) or (first_element(e['r']) and size_field(e['l']))
         else:
             idx = e
             if idx.get('k') in ('idx',) or (idx.get('k') == 'call' and idx.get('ck') == 'op'):
                 base = idx['b'] if idx['k'] == 'idx' else idx['args'][0]
                 i = idx['i'] if idx['k'] == 'idx' else idx['args'][1]
                 ok = field_of(base) is not None and ir.strip_all_casts(i).get('id') == f['params'][0]['id']
-        what = {'begin': 'returns &data[0]', 'end': 'returns &data[size]', 'size': 'returns the size member',
+        what = {'begin': 'returns &data[0]', 'end': 'returns the address of data[size] (&data[size] or first element + size)', 'size': 'returns the size member',
                 'operator[]': 'returns data[index]'}[f['n']]
         chk.decide(ok, rule, facts.site(f), 'LogicalBuffer::%s %s%s' % (f['n'], what, '' if ok else ': NOT recognised'),
                    function=ir.fn_label(f))
